@@ -15,8 +15,9 @@ def allowed : List String :=
   ["malloc", "calloc", "realloc", "free",
    "memcpy", "memmove", "memset", "memcmp", "memchr", "strlen", "strcmp", "strncmp", "strcpy",
    "strncpy", "strchr", "strrchr", "qsort", "bsearch", "abs", "labs",
+   "strnlen", "strcat", "strncat", "strstr", "strspn", "strcspn", "strpbrk", "llabs",
    "fread", "fwrite", "fseek", "ftell", "fgetc", "fputc", "getc", "putc", "ferror", "feof",
-   "fflush", "fseeko", "ftello"]
+   "fflush", "fseeko", "ftello", "ungetc", "clearerr", "_IO_getc", "_IO_putc", "__uflow", "__overflow"]
 
 /-- every external symbol any object of the library refers to is in the passive family -/
 theorem passive : ∀ s ∈ Gen.undefinedSyms, s.2 ∈ allowed := by decide
